@@ -149,6 +149,7 @@ fn case_typed<S: Spec>(sub: &str, id: u64, r: &mut Report) {
             {
                 let mut fs = SourceRng::new(vec![0u8; 8 * S::SEED_LEN]);
                 fs.fail_from = Some(1 + p.below(3) as usize);
+                fs.scribble = p.chance(1, 2);
                 let mut fsrc = FallibleSource(fs);
                 if let Ok(g3) = S::R::try_from_rng(&mut fsrc) {
                     nonzero::<S>(&g3, "try_from_rng(zero blocks, then source failure)", desc.clone(), sub, id, r);
